@@ -263,7 +263,7 @@ func TestPropConverge(t *testing.T) {
 			if rapid.Bool().Draw(t, "onUpstream") {
 				s = U
 			}
-			ops := []string{"nodePoint", "nodePoint", "edgePoint", "create", "create", "delete", "undelete", "restartUpstream"}
+			ops := []string{"nodePoint", "nodePoint", "edgePoint", "create", "create", "delete", "undelete", "restartUpstream", "mirror", "mirror"}
 			if linkUp {
 				ops = append(ops, "linkDown", "linkDown")
 			} else {
@@ -320,6 +320,30 @@ func TestPropConverge(t *testing.T) {
 				if !linkUp {
 					outage[s.name+"Write"] = true
 					flags["outage+create"] = true
+				}
+			case "mirror":
+				// an existing node gets a second placement inside the device tree
+				// (a leaf, so that no cycle can arise)
+				if len(nodes) < 3 {
+					break
+				}
+				n := nodes[rapid.IntRange(1, len(nodes)-1).Draw(t, "node")]
+				par := nodes[rapid.IntRange(0, len(nodes)-1).Draw(t, "newParent")]
+				ok := par.id != n.id && par.id != n.parent
+				for _, e := range nodes {
+					if e.parent == n.id || (e.parent == par.id && e.id == n.id) {
+						ok = false
+					}
+				}
+				if !ok || !visible(s, n.parent, n.id) || !visible(s, par.parent, par.id) {
+					break
+				}
+				ack(s, n.id, par.id, data.Points{{Type: data.PointTypeTombstone, Value: 0, Time: ts(), Origin: "h-" + s.name}, {Type: data.PointTypeNodeType, Text: data.NodeTypeVariable, Origin: "h-" + s.name}})
+				nodes = append(nodes, edge{par.id, n.id})
+				hist = append(hist, fmt.Sprintf("%s: mirror %s under %s", s.name, n.id, par.id))
+				if !linkUp {
+					outage[s.name+"Write"] = true
+					flags["outage+mirror"] = true
 				}
 			case "delete", "undelete":
 				if len(nodes) < 2 {
